@@ -115,6 +115,7 @@ class Conserve:
         self.arg_types = [c.info for c in repo.fold_global('data', 'arg_type')]
         self.final = False
         self.in_peek = False
+        self.position_sites = []
 
     # ------------------------------------------------------------------ driver
     def run(self):
@@ -133,6 +134,7 @@ class Conserve:
             raise AnalysisError('conservation summaries did not stabilise')
         # final pass: record findings / obligations with stable summaries
         self.final = True
+        self.position_sites = []
         self.done = set()
         self.findings = {}
         self.obligations = 0
@@ -896,6 +898,7 @@ class ConsInterp(Interp):
                 if args and args[0][0] == 'const' and isinstance(args[0][1], str):
                     return [(('const', args[0][1]), st)]
             return [(('other',), st)]
+        self.record_position(classes, n, kw, st)
         w_lo, w_hi = 0, 0
         for a in list(args) + list(kw.values()):
             if a[0] in ('res', 'list', 'tuple', 'fmt', 'part', 'proj') or (a[0] == 'const' and isinstance(a[1], str)):
@@ -911,6 +914,30 @@ class ConsInterp(Interp):
         if n.args and classes and any(c.is_subclass_of(eng.repo.need_cls('data.TexGroup')) for c in classes):
             self.mark_arg_attached(st, None)
         return [(('res', rid), st)]
+
+    def record_position(self, classes, n, kw, st):
+        """R13.c: a node built from consumed tokens records the position of the earliest token still
+        unaccounted on the path (the first token consumed for the construct)"""
+        eng = self.eng
+        if not eng.final or eng.in_peek:
+            return
+        if not classes or any(c.name in ('TexText', 'TexArgs') for c in classes):
+            return
+        last_ctor = max([r.seq for r in st.res.values() if r.kind == 'ctor' and r.whi != 0] or [0])
+        cands = sorted([r for r in st.res.values() if r.kind == 'tok' and r.status == 'live' and r.wlo == 1 and r.whi == 1
+                        and r.seq > last_ctor], key=lambda r: r.seq)
+        pos = kw.get('position')
+        if not cands:
+            return
+        first = cands[0]
+        if pos is None:
+            ok, desc = False, 'no position'
+        elif pos[0] == 'proj' and pos[2] == '.position':
+            ok = pos[1] == first.rid
+            desc = 'the position of %s' % st.res[pos[1]].desc if pos[1] in st.res else 'a position'
+        else:
+            ok, desc = False, 'a value that is not a token position (%s)' % pos[0]
+        eng.position_sites.append(((self.fd.fq, n.lineno), ok, desc, n, self.fd))
 
     # ------------------------------------------------------------------ conditions
     def truth_of(self, v, st, node):
